@@ -46,6 +46,9 @@
 
 static struct vh_rng rng;
 static bool inited;
+/* FUZZ_TS_SELECT="0,2,6": pipelines this run is about (all when unset) */
+static uint8_t allowed[8];
+static int nallowed;
 
 static struct upipe *mk(struct upipe_mgr *mgr, const char *def)
 {
@@ -206,6 +209,10 @@ int LLVMFuzzerInitialize(int *argc, char ***argv)
     tsl_init();
     vh_rng_seed(&rng, 1);
     inited = true;
+    const char *sel = getenv("FUZZ_TS_SELECT");
+    nallowed = 0;
+    if (sel) for (const char *c = sel; *c; c++) if (*c >= '0' && *c <= '6' && nallowed < 8) allowed[nallowed++] = (uint8_t)(*c - '0');
+    if (!nallowed) for (int i = 0; i < 7; i++) allowed[nallowed++] = (uint8_t)i;
     const char *sd = getenv("FUZZ_TS_SEED_DIR");
     if (sd) { struct vh_rng r0; vh_rng_seed(&r0, 1); tsl_case_begin(&r0); make_seeds(sd); tsl_case_begin(&r0); }
     return 0;
@@ -223,6 +230,10 @@ int LLVMFuzzerTestOneInput(const uint8_t *data, size_t size)
         abort();
     }
     uint8_t sel = data[0] & 7, cfg = data[1];
+    if (sel == 7) sel = 6;
+    bool ok = false;
+    for (int i = 0; i < nallowed; i++) if (allowed[i] == sel) ok = true;
+    if (!ok) sel = allowed[data[0] % nallowed];
     data += 2; size -= 2;
     struct tsl_sink *sink = tsl_sink_new("out");
     struct upipe *head = NULL;
